@@ -177,6 +177,7 @@ let register_c14 reg =
   reg "calc_staged" (function [f; s; d] -> show_res show_rates (calc_staged (zv f) (strv s) (strv d)) | _ -> failwith "arity");
   reg "calc_gaussian" (function [f; sd; w; d] -> show_res show_rates (calc_gaussian (zv f) (zv sd) (bv w) (strv d)) | _ -> failwith "arity");
   reg "parse_config" (function [c; now] -> show_res show_plan (parse_config (config_of c) (zv now)) | _ -> failwith "arity");
+  reg "config_jitter_ok" (function [c; now; obs] -> show_bool (config_jitter_ok (config_of c) (zv now) (zlist obs)) | _ -> failwith "arity");
   reg "fuzz_crashes" (function [n] -> show_bool (z_to_int (zv n) = 0) | _ -> failwith "arity")
 let () = section register_c14
 let register_c15 reg =
